@@ -405,8 +405,8 @@ class Typer:
             name = expr.id
             if func is not None:
                 owner = self._method_owner(func)
-                if owner is not None and owner.node.args.args:
-                    first = owner.node.args.args[0].arg
+                if owner is not None and owner.pos_params:
+                    first = owner.pos_params[0]
                     decs = owner.decorator_names()
                     if name == first and (func is owner or name not in func.local_names() or func.parent is not None):
                         shadow = False
@@ -585,7 +585,7 @@ class Typer:
                     vals = self._assigns.get(r[1], {}).get(fn.id, [])
                     open_world = fn.id in r[1].params or not vals or any(isinstance(v, tuple) for v in vals)
                     if any(isinstance(t, tuple) and t[0] == "classobj" for t in ts) and r[1].cls is not None \
-                            and r[1].node.args.args and r[1].node.args.args[0].arg == fn.id:
+                            and r[1].pos_params and r[1].pos_params[0] == fn.id:
                         open_world = False  # cls / klass of a classmethod
                 if out and not open_world:
                     return out
